@@ -380,20 +380,65 @@ def check_name_case(spec: dict) -> dict:
     assert mention not in present, "harness: name is present"
     if spec["form"] == "rule":
         kind, msg = eval_rule(spec["rule"], evl)
+    elif spec["form"] == "diagram":
+        kind, msg = eval_diagram(spec["diagram"], evl)
     else:
         kind, msg = eval_layer_rule(spec["layers"], spec["rule"], evl)
     viols = []
     slot = spec["slot"]
     if kind != "error":
         viols.append({"sig": f"C13/absent-name/{spec['form']}/{slot}/got={kind}", "key": {"slot": slot, "form": spec["form"]},
-                      "detail": f"{spec['form']} mentions absent name {mention!r} in {slot} but produced {kind}: {msg!r}; rule={spec['rule']}"})
+                      "detail": f"{spec['form']} mentions absent name {mention!r} in {slot} but produced {kind}: {msg!r}; rule={spec.get('rule') or spec.get('diagram')}"})
     shares = any(m != mention and (m.startswith(mention) or mention.startswith(m)) for m in present)
     return {"violations": viols, "nontrivial": shares,
             "labels": [f"absent/{spec['form']}", f"slot={slot}", f"why={spec['why']}", "limited" if limit else "full", f"outcome={kind}"]}
 
 
+def eval_diagram(d: dict, ev) -> tuple:
+    """d: {components: [fully qualified names], arrows: [[a, b]], should_only}"""
+    import os
+    from pathlib import Path
+
+    from pytestarch import DiagramRule
+
+    from ..drive import write_puml
+
+    lines = [f"[{c}]" for c in d["components"]] + [f"[{a}] --> [{b}]" for a, b in d["arrows"]]
+    path = write_puml("@startuml\n" + "\n".join(lines) + "\n@enduml\n")
+    try:
+        rule = DiagramRule(should_only_rule=d["should_only"]).from_file(Path(path)).base_module_included_in_module_names()
+        return outcome(lambda: rule.assert_applies(ev))
+    finally:
+        os.unlink(path)
+
+
+@st.composite
+def diagram_name_cases(draw):
+    """A diagram over 2-3 existing unrelated modules plus one absent name; imports chosen freely, so that pairwise rules
+    that do not mention the absent component may well be violated before the one that does is evaluated."""
+    tree = draw(RS.trees(root="q", max_modules=10, min_modules=4))
+    units = []
+    for n in draw(st.permutations([m for m in tree if m != "q"])):
+        if all(not M.related(n, u) for u in units):
+            units.append(n)
+    comps = units[: draw(st.integers(2, 3))]
+    if len(comps) < 2:
+        tree = ["q", "q.a", "q.b", "q.c"]
+        comps = ["q.a", "q.b"]
+    why, absent = draw(st.sampled_from(absent_names(tree)))
+    names = list(draw(st.permutations(comps + [absent])))
+    pairs = [(a, b) for a in names for b in names if a != b]
+    arrows = draw(st.lists(st.sampled_from(pairs), max_size=4, unique=True))
+    imports = draw(RS.import_relation(tree, focus=set(comps), max_edges=8))
+    return {"tree": tree, "imports": [list(x) for x in imports], "level_limit": None, "absent": absent, "why": why, "form": "diagram",
+            "slot": "component" + ("-with-arrow" if any(absent in a for a in arrows) else "-isolated"),
+            "diagram": {"components": names, "arrows": [list(a) for a in arrows], "should_only": draw(st.booleans())}}
+
+
 @st.composite
 def name_cases(draw):
+    if draw(st.integers(0, 5)) == 0:
+        return draw(diagram_name_cases())
     spec = draw(plain_name_cases())
     if draw(st.integers(0, 2)) == 0:
         # the rule object is first applied to an architecture in which the name does exist (no level limit, the absent
